@@ -554,7 +554,8 @@ def _run(ctx, quick, budget, with_model):
         model_jobs.setdefault(key, []).append((c, mi_idx, field, good))
     # correspondence with the abstract model: payload-level fields
     modelled = 0
-    for key, jobs in (model_jobs.items() if with_model else []):
+    def model_one(key, jobs):
+        n_mod, dis = 0, []
         name, car = key.split("/")
         v = stores[name][car]["view"]
         prelude, ms, tok, labels = build_model(v, key)
@@ -589,9 +590,9 @@ def _run(ctx, quick, budget, with_model):
             s_expr = coq_list([coq_manifest(m, repl if i == mi_idx or (mi_idx is None and not repl) else None) for i, m in enumerate(ms)])
             exprs.append(f"run {s_expr}")
             meta.append((c, good))
-        res = common.coq_eval("C02_" + key.replace("/", "_"), prelude, exprs, shard_size=400)
+        res = common.coq_eval("C02_" + key.replace("/", "_"), prelude, exprs, shard_size=120)
         for (c, good), mo in zip(meta, res):
-            modelled += 1
+            n_mod += 1
             mv = (mo == "true")
             # payload edits that parse to the same content (e.g. inside ignored CBOR padding) may be accepted by the
             # implementation with an unchanged report: the model works on parsed content, so only the direction
@@ -601,14 +602,22 @@ def _run(ctx, quick, budget, with_model):
             short = {k: (x if k != "m" else {kk: vv for kk, vv in x.items() if kk != "hex"}) for k, x in c.items()}
             if c["m"]["k"] == "none":
                 if not (mv and good):
-                    ctx.disagreements.append({"case": short, "impl": good, "model": mo})
+                    dis.append({"case": short, "impl": good, "model": mo})
             elif c["m"]["k"] == "replace":
                 # structure edits: the abstract verdict must agree with the implementation, except that the abstract
                 # model has no hard binding (an older manifest made active again is caught by C01's data hash)
                 if mv != good and not (mv and c["m"].get("edit") in ROLLBACK):
-                    ctx.disagreements.append({"case": short, "impl": good, "model": mo})
+                    dis.append({"case": short, "impl": good, "model": mo})
             elif mv:
-                ctx.disagreements.append({"case": short, "impl": good, "model": mo})
+                dis.append({"case": short, "impl": good, "model": mo})
+        return n_mod, dis
+
+    from concurrent.futures import ThreadPoolExecutor
+    if with_model:
+        with ThreadPoolExecutor(max_workers=max(1, len(model_jobs))) as ex:
+            for n_mod, dis in ex.map(lambda kv: model_one(*kv), list(model_jobs.items())):
+                modelled += n_mod
+                ctx.disagreements.extend(dis)
     if os.environ.get("VERIF_DEBUG"):
         json.dump(ctx.violations, open(os.path.join(common.CASES, "C02_violations.json"), "w"), default=str)
     distinct = len({(c["store"]["name"], c["carrier"], json.dumps(c["m"], sort_keys=True)) for c in cases if c["m"]["k"] != "none"})
